@@ -72,7 +72,7 @@ func Prop(c Case, x *h.Ctx) *h.Violation {
 	dataPath := filepath.Join(dir, sstables.DataFileName)
 	orig, err := os.ReadFile(dataPath)
 	if err != nil {
-		panic(err)
+		panic(h.Infra{Msg: "harness file operation failed: " + err.Error()})
 	}
 	keys := make([][]byte, len(c.KVs))
 	vals := make([][]byte, len(c.KVs))
@@ -171,7 +171,7 @@ func Prop(c Case, x *h.Ctx) *h.Violation {
 	try := func(desc string, damaged []byte, key string, nt bool) *h.Violation {
 		fileHeaderDamaged = len(damaged) < 8 || !bytes.Equal(damaged[:8], orig[:8])
 		if err := os.WriteFile(dataPath, damaged, 0o644); err != nil {
-			panic(err)
+			panic(h.Infra{Msg: "harness file operation failed: " + err.Error()})
 		}
 		for _, m := range modes {
 			x.Sub(key+"/"+m.name, nt)
@@ -239,7 +239,7 @@ func Prop(c Case, x *h.Ctx) *h.Violation {
 		}
 	}
 	if err := os.WriteFile(dataPath, orig, 0o644); err != nil {
-		panic(err)
+		panic(h.Infra{Msg: "harness file operation failed: " + err.Error()})
 	}
 	return nil
 }
@@ -283,7 +283,7 @@ func PropMulti(m Multi, x *h.Ctx) *h.Violation {
 	dataPath := filepath.Join(dir, sstables.DataFileName)
 	orig, err := os.ReadFile(dataPath)
 	if err != nil {
-		panic(err)
+		panic(h.Infra{Msg: "harness file operation failed: " + err.Error()})
 	}
 	buf := append([]byte{}, orig...)
 	desc := ""
@@ -307,7 +307,7 @@ func PropMulti(m Multi, x *h.Ctx) *h.Violation {
 		return nil
 	}
 	if err := os.WriteFile(dataPath, buf, 0o644); err != nil {
-		panic(err)
+		panic(h.Infra{Msg: "harness file operation failed: " + err.Error()})
 	}
 	fileHeaderDamaged := len(buf) < 8 || !bytes.Equal(buf[:8], orig[:8])
 	okVal := func(got, want []byte) bool {
